@@ -273,23 +273,45 @@ func c04Run(c *Ctx) {
 		}
 	}
 	// n = 3 up to isomorphism: ExpandSpec with the four option combinations, ids on node 1
-	for _, mask := range topologies(3, true) {
+	// (thorough: every 3-node digraph, every id of the alphabet on every node, five keyword positions, every spelling)
+	n3ids := []string{"", "rel.json", "http://h/ids/n.json"}
+	n3forms := []int{formProperties}
+	n3spells := []int{spShort}
+	if thorough {
+		n3ids = ids
+		n3forms = []int{formProperties, formItems, formAllOf, formNot, formBare}
+		n3spells = []int{spShort, spAbsolute, spDetour, spRelQuery}
+	}
+	for _, mask := range topologies(3, !thorough) {
 		for _, pp := range [][]int{{0, 0, 0}, {0, 1, 2}, {1, 2, 3}} {
-			for _, id := range []string{"", "rel.json", "http://h/ids/n.json"} {
-				if !mine(fmt.Sprint("n3", mask, pp, id)) {
-					continue
+			for _, id := range n3ids {
+				for idNode := 0; idNode < 3; idNode++ {
+					if (id == "" || !thorough) && idNode != 1 {
+						continue
+					}
+					for _, form := range n3forms {
+						for _, sp := range n3spells {
+							if (form != formProperties && sp != spShort) || !mine(fmt.Sprint("n3", mask, pp, id, idNode, form, sp)) {
+								continue
+							}
+							g := baseSpec(3, mask)
+							copy(g.Place, pp)
+							g.Entry = entAll
+							if id != "" {
+								g.IDs = make([]string, 3)
+								g.IDs[idNode] = id
+							}
+							for k := range g.Edges {
+								g.Edges[k].Form, g.Edges[k].Spell = form, sp
+							}
+							b := g.build()
+							for _, o := range optCombos {
+								run(b, call{Fn: "ExpandSpec", Opts: o}, nil)
+							}
+							run(b, call{Fn: "ExpandSchemaWithBasePath", Elem: "/parameters/P/schema"}, nil)
+						}
+					}
 				}
-				g := baseSpec(3, mask)
-				copy(g.Place, pp)
-				g.Entry = entAll
-				if id != "" {
-					g.IDs = []string{"", id, ""}
-				}
-				b := g.build()
-				for _, o := range optCombos {
-					run(b, call{Fn: "ExpandSpec", Opts: o}, nil)
-				}
-				run(b, call{Fn: "ExpandSchemaWithBasePath", Elem: "/parameters/P/schema"}, nil)
 			}
 		}
 	}
